@@ -28,6 +28,21 @@ CHECKS = {
  "C16": dict(section="6/C16", technique=TLA + "spec->code replay of the multichain policy-iteration machine of spec/C16_Multichain.tla (exact gain / bias evaluation, gain and bias improvement) and exact gain oracle by chain-class analysis, plus a TLC judge pass evaluating returned policies exactly",
    text="TLC explores the Evaluate / GainImprove / BiasImprove machine from every initial decision rule of every generated instance with EvalEquations, StoppedOptimal, StoppedPolicyAttains, NeverAboveOptimum, Terminates invariants and a Monotone action property against the oracle (MDP!OptimalValue when discounted; closed classes, stationary weights by the Markov chain tree theorem, absorption probabilities and max over deterministic policies when undiscounted); MultichainPolicyIteration.plan_on and its array function are run from default and random initial rules and, when converged, their values / gains / policy are compared with the exact optimum and the returned policy is evaluated exactly by TLC.",
    note="<=3-4 states; non-converged runs are counted, not judged (the statement is conditional on convergence); deviations inside msdm's own isclose window are DRIFT. Trusted: TLC, projection; gain oracle cross-checked against Fraction Gauss-Jordan enumeration and the multichain LP (scipy HiGHS)."),
+ "C03": dict(section="6/C03", technique=TLA + "spec->code replay of LAO* behaviours (Start/Expand/Revise/Terminate machine of spec/C03_LAOStar.tla) and trace validation of randomised real runs recorded through LAOStarEventListener, with exact V* and exact evaluation of the returned policy by TLC",
+   text="TLC (mc) explores every behaviour of the LAO* reference machine - all initial orders and all action / successor permutations - for four admissible heuristics per instance with Admissible, GreedyConsistent, ReviseOptimal, GraphWellFormed and TerminalOptimal invariants against the exact optimum; flag-free behaviours are replayed step by step into LAOStar (expanded state, ancestor set, values, best actions per iteration); (trace) recorded runs with randomised orders and seeds are re-executed by TLC with choices bound to the log, each logged choice must be legal, and the exact return of the returned policy is compared with the optimum.",
+   note="<=3 non-absorbing states; the exact machine is skipped (counted) for discount 9/10 where 32-bit rationals overflow - those runs are still judged by the oracle and the exact policy evaluation. Expansion order / tie choices are DRIFT-level. Trusted: TLC, the listener-based recorder; oracle cross-checked against pyoracle."),
+ "C12": dict(section="6/C12", technique=TLA + "one implementation test per transition of the TLA+ state graph: TLC enumerates table views x selectors of spec/C12_Table.tla (nested-dictionary oracle and implementation-shaped index machine) and every transition is replayed on Table, ProbabilityTable/TableDistribution, StateTable, StateActionTable, StateActionNextStateTable and TabularPolicy",
+   text="TLC explores all views reachable by selector chains over tables with 1-3 fields and domains of size 1-3 (collision templates where a tuple is both a domain element and a field-wise key), judges every (view, selector) with the relational nested-dictionary oracle and the reference machine (RefinesOracle, OuterElementWins, ListRestricts, ForeignIsError, ViewDenotesCells, FullKeyIsCell, NestedIsCell, SliceIsIdentity) and emits the expected result kind, sub-table index, cells and exception family; every transition is executed on every table class of its arity with four labelings and compared (getitem, get, keys, items, values, len, row distributions, action_dist).",
+   note="Selector shapes whose meaning the statement does not fix (partial slices, two lists, component equal to a whole domain, ...) are judged against the machine at DRIFT level only. Trusted: TLC, the label mapping; oracle cross-checked against an independent python nested-dictionary oracle on every 5th transition."),
+ "C13": dict(section="6/C13", technique=TLA + "trace validation of merged multi-process run logs (digest of result, before/after states of the three global generators, hash seed) against the determinism / isolation machine of spec/C13_Seeding.tla, plus MC of the seeding idioms found in the code",
+   text="Every randomised component is run for several seeds under perturbed states of the global random / numpy / torch generators in >=3 interpreter processes with different PYTHONHASHSEED; TLC validates the merged log with the Judge operator (isolated, rerun, global-independent, hash-independent clauses per run) and emits per-case verdicts; the MC part explores seven seeding idioms over seeds (0 included), label kinds, processes and prior generator states and proves which idioms can break which clause (Breaks predicate sound and exact).",
+   note="Digests compare results exactly (floats by hex); internals that differ without changing results are DRIFT. Trusted: TLC, the canonical digest rendering, subprocess isolation."),
+ "C15": dict(section="6/C15", technique=TLA + "spec->code replay of the augment / sub-task / option-run machines of spec/C15_Options.tla (all override subsets, all option histories by scripted sampling) and trace validation of semi-MDP simulations against the same rules",
+   text="TLC explores augment() over all 128 subsets of overridden components of every base (Derived oracle, AugPreserved / AugOverridden / AugMatchesOracle), sub-goal option sub-tasks against the exact optimum of the derived instance, and every history of Option.run_on for all start states and step limits (OptFirstTerminal, OptWithinLimit, OptReturnExact, OptVerdictSound); histories are replayed into the real code with scripted sampling; recorded semi-MDP simulations are validated event by event and the exact outcome tally emitted by TLC is compared with the reported joint distribution, its marginals, expected_cumulative_reward, primitive actions and actions().",
+   note="Bases with <=3 non-absorbing states; undiscounted sub-tasks judged only when proper with rewards <= 0 (others counted). Trusted: TLC, scripted distributions, projection; oracles cross-checked in Python."),
+ "C18": dict(section="6/C18", technique=TLA + "trace validation of every positive-probability outcome of TabularGridGame against the allowed-move relation and reference machine of spec/C18_GridGame.tla, and spec->code replay of factor-table programs (spec/C18_Factor.tla, lib/FactorTable.tla) on DiscreteFactorTable",
+   text="TLC explores all reachable states x 25 joint actions of every generated layout with 14 invariants (NoSharedCell, NoSwap, InGrid, NotInObstacle, NotThroughWall, OneCellCommanded, GoalLeadsToTerminal, TerminalAbsorbing, Normalisable, ...) and validates one recorded trace per real reachable state (each outcome must be an allowed move, probabilities sum to 1 within the quantisation bound); factor-table programs (scale, and, or, marginalize) over nested-dict rows with shared / disjoint / partially overlapping variables and zero rows, plus an exhaustive small family of table pairs, are executed on DiscreteFactorTable and compared with the JoinLaw / MixLaw / MargLaw oracle.",
+   note="Layouts up to 4x4, two agents; fence success probability and non-terminal joint rewards are checked exactly but at DRIFT level (the statement constrains only the terminal state). Trusted: TLC, the recorder; move relation and factor steps cross-checked in independent Python."),
 }
 NOT_APPLICABLE = {
  "C19": "soft Bellman fixed point needs exp/log over reals; TLA+/TLC has bounded integers only (DESIGN.md section 10)",
